@@ -27,7 +27,7 @@ theorem expandNd_eq_flatMap (ind : List Nat) (dim : Nat) (hd : 0 < dim) :
     subst h
     induction ind with
     | nil => rfl
-    | cons a l ih => simp [List.flatMap_cons, ← ih]
+    | cons a l _ => simp [List.flatMap_cons]
   · rfl
 
 theorem expandNd_range' (a n dim : Nat) (hd : 0 < dim) :
@@ -135,8 +135,7 @@ theorem blocks_flatten (off : Nat) (ss : List Nat) :
   | nil => simp [blocks]
   | cons s ss ih =>
     simp only [blocks, List.flatten_cons, List.sum_cons, ih]
-    have := @List.range'_append off s ss.sum 1
-    simpa using this
+    simp
 
 theorem blocks_mul (dim off : Nat) (ss : List Nat) (hd : 0 < dim) :
     blocks (dim * off) (ss.map (fun s => dim * s)) = (blocks off ss).map (fun b => expandNd b dim) := by
@@ -146,5 +145,337 @@ theorem blocks_mul (dim off : Nat) (ss : List Nat) (hd : 0 < dim) :
     simp only [List.map_cons, blocks, expandNd_range' _ _ _ hd]
     have : dim * off + dim * s = dim * (off + s) := by ring
     rw [this, ih]
+
+/-! ### selection of blocks (dictionary look-ups + bmat) -/
+
+theorem select_eq (projs : List (List Nat)) (sel : List Nat) (h : ∀ i ∈ sel, i < projs.length) :
+    select projs sel = some (sel.map (fun i => projs.getD i [])) := by
+  induction sel with
+  | nil => rfl
+  | cons i is ih =>
+    have hi : i < projs.length := h i (by simp)
+    have his : ∀ j ∈ is, j < projs.length := fun j hj => h j (List.mem_cons_of_mem _ hj)
+    simp only [select, List.getElem?_eq_getElem hi, ih his, List.map_cons, Option.map_some]
+    simp [List.getD_eq_getElem?_getD, List.getElem?_eq_getElem hi]
+
+theorem select_none (projs : List (List Nat)) (sel : List Nat) (i : Nat) (hi : i ∈ sel)
+    (hge : projs.length ≤ i) : select projs sel = none := by
+  induction sel with
+  | nil => cases hi
+  | cons a is ih =>
+    rcases List.mem_cons.mp hi with rfl | h
+    · simp [select, List.getElem?_eq_none hge]
+    · simp only [select]
+      cases projs[a]? with
+      | none => rfl
+      | some b => simp [ih h]
+
+theorem map_getD_range {α : Type} (l : List α) (d : α) :
+    (List.range l.length).map (fun i => l.getD i d) = l := by
+  induction l with
+  | nil => rfl
+  | cons a l ih =>
+    rw [List.length_cons, List.range_succ_eq_map, List.map_cons, List.map_map]
+    simp only [List.getD_cons_zero]
+    congr 1
+
+theorem flatMap_getD_range (bl : List (List Nat)) :
+    (List.range bl.length).flatMap (fun i => bl.getD i []) = bl.flatten := by
+  rw [List.flatMap_def, map_getD_range]
+
+/-- flatMap respects sub-permutations -/
+theorem subperm_flatMap {α β : Type} (f : α → List β) {l₁ l₂ : List α} (h : l₁ <+~ l₂) :
+    l₁.flatMap f <+~ l₂.flatMap f := by
+  obtain ⟨l, hp, hs⟩ := h
+  exact ⟨l.flatMap f, hp.flatMap_right f, hs.flatMap f⟩
+
+theorem nodup_of_subperm {α : Type} {l₁ l₂ : List α} (h : l₁ <+~ l₂) (hn : l₂.Nodup) : l₁.Nodup := by
+  obtain ⟨l, hp, hs⟩ := h
+  exact hp.nodup_iff.mp (hn.sublist hs)
+
+theorem subset_of_subperm {α : Type} {l₁ l₂ : List α} (h : l₁ <+~ l₂) : l₁ ⊆ l₂ := by
+  obtain ⟨l, hp, hs⟩ := h
+  intro x hx
+  exact hs.subset (hp.symm.subset hx)
+
+/-- the index map of a duplicate-free selection of blocks: duplicate free, inside `[off, off+total)` -/
+theorem selIdx_subperm (off : Nat) (ss : List Nat) (sel : List Nat) (hnd : sel.Nodup)
+    (hlt : ∀ i ∈ sel, i < ss.length) :
+    sel.flatMap (fun i => (blocks off ss).getD i []) <+~ List.range' off ss.sum := by
+  have hsub : sel <+~ List.range (blocks off ss).length := by
+    apply List.subperm_of_subset hnd
+    intro i hi
+    rw [blocks_length]
+    exact List.mem_range.mpr (hlt i hi)
+  have := subperm_flatMap (fun i => (blocks off ss).getD i []) hsub
+  rwa [flatMap_getD_range, blocks_flatten] at this
+
+theorem selIdx_perm (off : Nat) (ss : List Nat) (sel : List Nat) (hp : sel ~ List.range ss.length) :
+    sel.flatMap (fun i => (blocks off ss).getD i []) ~ List.range' off ss.sum := by
+  have := hp.flatMap_right (fun i => (blocks off ss).getD i [])
+  rw [← blocks_length off ss, flatMap_getD_range, blocks_flatten] at this
+  exact this
+
+/-! ### action on vectors -/
+
+theorem scatterAt_not_mem (g : Nat) (idx : List Nat) (w : List Rat) (h : g ∉ idx) :
+    scatterAt g idx w = 0 := by
+  induction idx generalizing w with
+  | nil => cases w <;> rfl
+  | cons i is ih =>
+    cases w with
+    | nil => rfl
+    | cons x xs =>
+      have hne : i ≠ g := fun e => h (by simp [e])
+      have hg : g ∉ is := fun e => h (List.mem_cons_of_mem _ e)
+      simp [scatterAt, hne, ih xs hg]
+
+theorem map_scatterAt_self (idx : List Nat) (w : List Rat) (hnd : idx.Nodup)
+    (hlen : w.length = idx.length) : idx.map (fun g => scatterAt g idx w) = w := by
+  induction idx generalizing w with
+  | nil => cases w with
+    | nil => rfl
+    | cons x xs => simp at hlen
+  | cons i is ih =>
+    cases w with
+    | nil => simp at hlen
+    | cons x xs =>
+      have hi : i ∉ is := (List.nodup_cons.mp hnd).1
+      have hnd' : is.Nodup := (List.nodup_cons.mp hnd).2
+      rw [List.map_cons]
+      congr 1
+      · simp [scatterAt, scatterAt_not_mem i is xs hi]
+      · conv_rhs => rw [← ih xs hnd' (by simpa using hlen)]
+        apply List.map_congr_left
+        intro g hg
+        have hne : i ≠ g := fun e => hi (e ▸ hg)
+        simp [scatterAt, hne]
+
+theorem scatterAt_map (g : Nat) (idx : List Nat) (f : Nat → Rat) (hnd : idx.Nodup) :
+    scatterAt g idx (idx.map f) = if g ∈ idx then f g else 0 := by
+  induction idx with
+  | nil => rfl
+  | cons i is ih =>
+    have hi : i ∉ is := (List.nodup_cons.mp hnd).1
+    have hnd' : is.Nodup := (List.nodup_cons.mp hnd).2
+    simp only [List.map_cons, scatterAt, ih hnd']
+    by_cases h : i = g
+    · subst h
+      simp [hi]
+    · have : ¬ g = i := fun e => h e.symm
+      simp [h, this]
+
+theorem prolongV_getD (n : Nat) (idx : List Nat) (w : List Rat) (g : Nat) (hg : g < n) :
+    (prolongV n idx w).getD g 0 = scatterAt g idx w := by
+  simp [prolongV, List.getD_eq_getElem?_getD, hg]
+
+/-! ### sums -/
+
+theorem sumMap_eq_sum {α : Type} (f : α → Nat) (l : List α) : sumMap f l = (l.map f).sum := by
+  induction l with
+  | nil => rfl
+  | cons a l ih => simp [sumMap, ih]
+
+theorem sum_map_mul_left {α : Type} (f : α → Nat) (d : Nat) (l : List α) :
+    (l.map (fun a => d * f a)).sum = d * sumMap f l := by
+  induction l with
+  | nil => simp [sumMap]
+  | cons a l ih => simp [sumMap, ih, Nat.mul_add]
+
+theorem sum_map_mul_right {α : Type} (f : α → Nat) (d : Nat) (l : List α) :
+    (l.map (fun a => f a * d)).sum = d * sumMap f l := by
+  have : (fun a => f a * d) = (fun a => d * f a) := by funext a; ring
+  rw [this, sum_map_mul_left]
+
+/-! ### the per-grid projections of well-formed grid lists -/
+
+theorem cellProjs_eq (gs : List G) (dim : Nat) (hd : 0 < dim) (hwf : ∀ g ∈ gs, g.wf) :
+    cellProjs gs dim = some (blocks 0 (gs.map (fun g => dim * g.cells))) := by
+  unfold cellProjs
+  rw [projAux_eq_blocks dim hd]
+  · simp [List.map_map, Function.comp_def]
+  · intro p hp
+    obtain ⟨g, hg, rfl⟩ := List.mem_map.mp hp
+    exact ⟨fun _ => (hwf g hg).1, fun h => by simp at h⟩
+
+theorem faceProjs_eq (gs : List G) (dim : Nat) (hd : 0 < dim) (hwf : ∀ g ∈ gs, g.wf) :
+    faceProjs gs dim = some (blocks 0 (gs.map (fun g => dim * g.faces))) := by
+  unfold faceProjs
+  rw [projAux_eq_blocks dim hd]
+  · simp [List.map_map, Function.comp_def]
+  · intro p hp
+    obtain ⟨g, hg, rfl⟩ := List.mem_map.mp hp
+    refine ⟨fun h => (hwf g hg).2.2 (by simpa using h), fun h => (hwf g hg).2.1 ?_⟩
+    have : ¬ 0 < g.gdim := by simpa using h
+    omega
+
+theorem blocks_getD (off : Nat) (ss : List Nat) (i : Nat) (h : i < ss.length) :
+    (blocks off ss).getD i [] = List.range' (off + (ss.take i).sum) ss[i] := by
+  rw [List.getD_eq_getElem?_getD, blocks_getElem? off ss i h]
+  rfl
+
+/-- block `p` of the projections of a grid list, with the offset as a prefix sum of grid sizes -/
+theorem blocks_grid_getD (gs : List G) (size : G → Nat) (dim p : Nat) (hp : p < gs.length) :
+    (blocks 0 (gs.map (fun g => dim * size g))).getD p [] =
+      List.range' (dim * sumMap size (gs.take p)) (dim * size gs[p]) := by
+  rw [blocks_getD _ _ _ (by simpa using hp)]
+  simp only [List.getElem_map, Nat.zero_add, ← List.map_take, sum_map_mul_left]
+
+/-! ### generic "place blocks at accumulated offsets" -/
+
+def accFlat {α β : Type} (size : α → Nat) (F : Nat → α → List β) : Nat → List α → List β
+  | _, [] => []
+  | off, a :: l => F off a ++ accFlat size F (off + size a) l
+
+theorem accFlat_eq {α β : Type} (size : α → Nat) (F : Nat → α → List β) (off : Nat) (l : List α) :
+    accFlat size F off l = (List.range l.length).flatMap (fun k =>
+      match l[k]? with
+      | some a => F (off + sumMap size (l.take k)) a
+      | none => []) := by
+  induction l generalizing off with
+  | nil => rfl
+  | cons a l ih =>
+    rw [accFlat, ih, List.length_cons, List.range_succ_eq_map, List.flatMap_cons, List.flatMap_map]
+    simp [sumMap, Nat.add_assoc]
+
+theorem accFlat_map_list {α β γ : Type} (size : α → Nat) (F : Nat → α → List β) (g : γ → α) (off : Nat)
+    (l : List γ) :
+    accFlat size F off (l.map g) = accFlat (fun c => size (g c)) (fun o c => F o (g c)) off l := by
+  induction l generalizing off with
+  | nil => rfl
+  | cons a l ih => simp [accFlat, ih]
+
+theorem map_accFlat {α β γ : Type} (size : α → Nat) (F : Nat → α → List β) (h : β → γ) (off : Nat)
+    (l : List α) :
+    (accFlat size F off l).map h = accFlat size (fun o a => (F o a).map h) off l := by
+  induction l generalizing off with
+  | nil => rfl
+  | cons a l ih => simp [accFlat, ih]
+
+theorem accFlat_congr {α β : Type} (size : α → Nat) (F F' : Nat → α → List β) (off : Nat) (l : List α)
+    (h : ∀ a ∈ l, ∀ o, F o a = F' o a) : accFlat size F off l = accFlat size F' off l := by
+  induction l generalizing off with
+  | nil => rfl
+  | cons a l ih =>
+    simp only [accFlat]
+    rw [h a (by simp), ih _ (fun b hb => h b (List.mem_cons_of_mem _ hb))]
+
+/-! ### hstack / vstack -/
+
+theorem hstackAux_ok (nr off : Nat) (ms : List Mat) (h : ∀ m ∈ ms, m.nr = nr) :
+    hstackAux nr off ms = .ok (off + sumMap Mat.nc ms,
+      accFlat Mat.nc (fun o m => m.tr.map (fun t => (t.1, o + t.2.1, t.2.2))) off ms) := by
+  induction ms generalizing off with
+  | nil => rfl
+  | cons m ms ih =>
+    have hm : m.nr = nr := h m (by simp)
+    have hms : ∀ m' ∈ ms, m'.nr = nr := fun m' hm' => h m' (List.mem_cons_of_mem _ hm')
+    simp only [hstackAux, hm, ne_eq, not_true_eq_false, if_false, ih _ hms, accFlat, sumMap]
+    simp [bind, Except.bind, pure, Except.pure, Nat.add_assoc]
+
+theorem hstack_ok (nr : Nat) (m : Mat) (ms : List Mat) (h : ∀ m' ∈ m :: ms, m'.nr = nr) :
+    hstack (m :: ms) = .ok ⟨nr, sumMap Mat.nc (m :: ms),
+      accFlat Mat.nc (fun o m => m.tr.map (fun t => (t.1, o + t.2.1, t.2.2))) 0 (m :: ms)⟩ := by
+  have hm : m.nr = nr := h m (by simp)
+  simp only [hstack, hm, hstackAux_ok nr 0 (m :: ms) h]
+  simp [bind, Except.bind, pure, Except.pure]
+
+theorem sumMap_nc_transpose (l : List Mat) : sumMap Mat.nc (l.map Mat.transpose) = sumMap Mat.nr l := by
+  induction l with
+  | nil => rfl
+  | cons a l ih => simp [sumMap, ih, Mat.transpose]
+
+theorem accFlat_transpose (off : Nat) (l : List Mat) :
+    (accFlat Mat.nc (fun o m => m.tr.map (fun t => (t.1, o + t.2.1, t.2.2))) off (l.map Mat.transpose)).map
+        (fun t => (t.2.1, t.1, t.2.2)) =
+      accFlat Mat.nr (fun o m => m.tr.map (fun t => (o + t.1, t.2.1, t.2.2))) off l := by
+  induction l generalizing off with
+  | nil => rfl
+  | cons a l ih =>
+    simp only [List.map_cons, accFlat, List.map_append, ih]
+    simp [Mat.transpose, List.map_map, Function.comp_def]
+
+theorem vstack_ok (nc : Nat) (m : Mat) (ms : List Mat) (h : ∀ m' ∈ m :: ms, m'.nc = nc) :
+    vstack (m :: ms) = .ok ⟨sumMap Mat.nr (m :: ms), nc,
+      accFlat Mat.nr (fun o m => m.tr.map (fun t => (o + t.1, t.2.1, t.2.2))) 0 (m :: ms)⟩ := by
+  have h' : ∀ m' ∈ m.transpose :: ms.map Mat.transpose, m'.nr = nc := by
+    intro m' hm'
+    rw [← List.map_cons] at hm'
+    obtain ⟨a, ha, rfl⟩ := List.mem_map.mp hm'
+    exact h a ha
+  have e : vstack (m :: ms) =
+      (do let x ← hstack (m.transpose :: ms.map Mat.transpose); pure x.transpose) := rfl
+  have key : ∀ (a b : Nat) (t : List Trip),
+      Mat.transpose ⟨a, b, t⟩ = ⟨b, a, t.map (fun t => (t.2.1, t.1, t.2.2))⟩ := fun _ _ _ => rfl
+  rw [e, hstack_ok nc _ _ h']
+  show Except.ok (Mat.transpose _) = _
+  rw [key, ← List.map_cons, accFlat_transpose, sumMap_nc_transpose]
+
+/-! ### Kronecker product and placement of one local matrix -/
+
+theorem kronI_eq_flatMap (tr : List Trip) (dim : Nat) (hd : 0 < dim) :
+    kronI tr dim = tr.flatMap (fun t => (List.range dim).map (fun k => (t.1 * dim + k, t.2.1 * dim + k, t.2.2))) := by
+  unfold kronI
+  split
+  · next h =>
+    subst h
+    induction tr with
+    | nil => rfl
+    | cons a l _ => simp [List.flatMap_cons]
+  · rfl
+
+theorem mem_kronI (tr : List Trip) (dim : Nat) (hd : 0 < dim) (t' : Trip) :
+    t' ∈ kronI tr dim ↔ ∃ t ∈ tr, ∃ k, k < dim ∧ t' = (t.1 * dim + k, t.2.1 * dim + k, t.2.2) := by
+  rw [kronI_eq_flatMap _ _ hd]
+  simp only [List.mem_flatMap, List.mem_map, List.mem_range]
+  constructor
+  · rintro ⟨t, ht, k, hk, rfl⟩; exact ⟨t, ht, k, hk, rfl⟩
+  · rintro ⟨t, ht, k, hk, rfl⟩; exact ⟨t, ht, k, hk, rfl⟩
+
+theorem kronI_row_lt (tr : List Trip) (dim n : Nat) (hd : 0 < dim) (h : ∀ t ∈ tr, t.1 < n) :
+    ∀ t' ∈ kronI tr dim, t'.1 < dim * n := by
+  intro t' ht'
+  obtain ⟨t, ht, k, hk, rfl⟩ := (mem_kronI tr dim hd t').mp ht'
+  have := h t ht
+  show t.1 * dim + k < dim * n
+  calc t.1 * dim + k < t.1 * dim + dim := by omega
+    _ = (t.1 + 1) * dim := by ring
+    _ ≤ n * dim := Nat.mul_le_mul_right _ (by omega)
+    _ = dim * n := by ring
+
+theorem kronI_col_lt (tr : List Trip) (dim n : Nat) (hd : 0 < dim) (h : ∀ t ∈ tr, t.2.1 < n) :
+    ∀ t' ∈ kronI tr dim, t'.2.1 < dim * n := by
+  intro t' ht'
+  obtain ⟨t, ht, k, hk, rfl⟩ := (mem_kronI tr dim hd t').mp ht'
+  have := h t ht
+  show t.2.1 * dim + k < dim * n
+  calc t.2.1 * dim + k < t.2.1 * dim + dim := by omega
+    _ = (t.2.1 + 1) * dim := by ring
+    _ ≤ n * dim := Nat.mul_le_mul_right _ (by omega)
+    _ = dim * n := by ring
+
+theorem mapRows_range' (ro n : Nat) (tr : List Trip) (h : ∀ t ∈ tr, t.1 < n) :
+    mapRows (List.range' ro n) tr = tr.map (fun t => (ro + t.1, t.2.1, t.2.2)) := by
+  induction tr with
+  | nil => rfl
+  | cons t ts ih =>
+    have ht : t.1 < n := h t (by simp)
+    have hts : ∀ t' ∈ ts, t'.1 < n := fun t' ht' => h t' (List.mem_cons_of_mem _ ht')
+    have := ih hts
+    unfold mapRows at this ⊢
+    rw [List.filterMap_cons, List.getElem?_range' ht, this]
+    simp
+
+theorem mapCols_range' (co n : Nat) (tr : List Trip) (h : ∀ t ∈ tr, t.2.1 < n) :
+    mapCols (List.range' co n) tr = tr.map (fun t => (t.1, co + t.2.1, t.2.2)) := by
+  induction tr with
+  | nil => rfl
+  | cons t ts ih =>
+    have ht : t.2.1 < n := h t (by simp)
+    have hts : ∀ t' ∈ ts, t'.2.1 < n := fun t' ht' => h t' (List.mem_cons_of_mem _ ht')
+    have := ih hts
+    unfold mapCols at this ⊢
+    rw [List.filterMap_cons, List.getElem?_range' ht, this]
+    simp
 
 end PorepyVerif.C27
